@@ -257,6 +257,28 @@ def check(pid, tier, runs=None, budget_s=None, base_seed=None):
             stop_new = True
         time.sleep(0.02)
     wall_search = time.time() - t0
+    # ------------------------------------------------------------------ determinism sample
+    # a few seeds of this very batch are run again, one per fresh worker process and all at once (different position in
+    # the worker, different machine load): event hash, step count and verdict must be identical
+    det = {"reruns": 0, "mismatches": 0, "seeds": []}
+    cand = sorted((r for r in results if r.get("wall_ms", 0) < 8000), key=lambda r: r["seed"])
+    cand = cand[::max(1, len(cand) // 8)][:8]
+    rer = []
+    for r in cand:
+        j = jobs[r["_job"]]
+        params = dict(tparams); params.update(j.get("params", {}))
+        rer.append((r, run_chunk(exes[r["_job"]], r["seed"], 1, params, recdir, j.get("args", ()), timeout_s)))
+    for r, pr in rer:
+        out, _ = pr.communicate()
+        for line in out.splitlines():
+            try:
+                q = json.loads(line)
+            except ValueError:
+                continue
+            det["reruns"] += 1; det["seeds"].append(r["seed"])
+            if (q["hash"], q["steps"], q["verdict"]) != (r["hash"], r["steps"], r["verdict"]):
+                det["mismatches"] += 1
+                log("[%s] DETERMINISM MISMATCH seed=%d harness=%s: %s vs %s" % (pid, r["seed"], jobs[r["_job"]]["harness"], (r["hash"], r["steps"], r["verdict"]), (q["hash"], q["steps"], q["verdict"])))
     # ------------------------------------------------------------------ triage
     known = load_known()
     rc = 0
@@ -318,7 +340,9 @@ def check(pid, tier, runs=None, budget_s=None, base_seed=None):
     for k, kf in known_hit.items():
         out_lines.append("KNOWN-FINDING: property=%s %s [%s]" % (pid, kf["text"], kf["key"]))
     shutil.rmtree(recdir, ignore_errors=True)
-    write_evidence(pid, tier, base_seed, results, time.time() - t0, wall_search, viol_reports, list(known_hit.keys()), jobs)
+    if det["mismatches"]:
+        rc = max(rc, 2)
+    write_evidence(pid, tier, base_seed, results, time.time() - t0, wall_search, viol_reports, list(known_hit.keys()), jobs, det)
     for l in out_lines:
         print(l)
     n_ok = sum(1 for r in results if r["verdict"] == "ok")
@@ -328,7 +352,7 @@ def check(pid, tier, runs=None, budget_s=None, base_seed=None):
     return rc
 
 
-def write_evidence(pid, tier, seed, results, wall, wall_search, viols, known_keys, jobs):
+def write_evidence(pid, tier, seed, results, wall, wall_search, viols, known_keys, jobs, det=None):
     prop = PROPS[pid]
     n = len(results)
     hashes = set(); faults = collections.Counter(); opps = collections.Counter(); probes = collections.Counter()
@@ -369,6 +393,7 @@ def write_evidence(pid, tier, seed, results, wall, wall_search, viols, known_key
             "probes": dict(probes), "probes_at_zero": zero_probes, "components_exercised": {k: v for k, v in comps.items() if k},
             "threads_max_histogram": {str(k): v for k, v in sorted(threads.items())},
             "runs_that_needed_fair_mode": fair,
+            "determinism_sample": det or {},
             "components": prop.get("components", {}),
             "harnesses": [j["harness"] + ":" + j.get("variant", "a") for j in jobs],
             "violation_reports": viols, "known_findings_hit": known_keys,
@@ -425,7 +450,8 @@ def selftest_determinism(ids, nseeds):
             seed0 = 77 << 32
             def collect(nworkers):
                 per = max(1, nseeds // nworkers)
-                ps = [run_chunk(exe, seed0 + i * per, per, dict(j.get("params", {})), recdir, j.get("args", ())) for i in range(nworkers)]
+                tr = {"VSIM_TRACE": "%s.%s.w%d" % (os.environ["VSIM_TRACE_PREFIX"], os.path.basename(exe), nworkers)} if "VSIM_TRACE_PREFIX" in os.environ else None   # debugging aid
+                ps = [run_chunk(exe, seed0 + i * per, per, dict(j.get("params", {})), recdir, j.get("args", ()), env_extra=tr) for i in range(nworkers)]
                 res = {}
                 for p in ps:
                     out, _ = p.communicate()
@@ -436,11 +462,11 @@ def selftest_determinism(ids, nseeds):
                             continue
                         res[r["seed"]] = (r["hash"], r["steps"], r["verdict"], r.get("oracle"))
                 return res
-            a = collect(1); b = collect(8)
-            diff = [s for s in a if s in b and a[s] != b[s]]
+            a = collect(1); b = collect(8); c = collect(24)   # 24 workers oversubscribe the machine on purpose
+            diff = [s for s in a if (s in b and a[s] != b[s]) or (s in c and a[s] != c[s])]
             print("[determinism] %s/%s:%s seeds=%d compared=%d mismatches=%d" % (pid, j["harness"], j.get("variant", "a"), len(a), len(set(a) & set(b)), len(diff)))
             for s in diff[:5]:
-                print("   seed %d: %s vs %s" % (s, a[s], b[s]))
+                print("   seed %d: %s vs %s vs %s" % (s, a[s], b.get(s), c.get(s)))
             bad += len(diff)
             shutil.rmtree(recdir, ignore_errors=True)
     return 2 if bad else 0
